@@ -1,6 +1,6 @@
 /-
 C14 — Text operations count characters; % formatting follows the directives.
-Property theorems only; helper lemmas live in ZnVerif/Proofs (Template, Directive, Format, TextUtf8, TextOps, TextHistory).
+Property theorems only; helper lemmas live in ZnVerif/Proofs (Template, Directive, Format, TextUtf8, TextOps, TextHistory, TextMethods).
 
 Texts are sequences of code points; where the Go code (or the library routine it calls) works on bytes the
 model does too, on `encode t`, the UTF-8 bytes of the character sequence `t` (`ValidText t`: all scalar values).
@@ -10,6 +10,7 @@ and every display function (these are runtime; the correspondence run compares t
 import ZnVerif.Proofs.Format
 import ZnVerif.Proofs.TextOps
 import ZnVerif.Proofs.TextHistory
+import ZnVerif.Proofs.TextMethods
 
 namespace ZnVerif.Properties.C14
 open ZnVerif ZnVerif.Generated
@@ -363,5 +364,80 @@ open ZnVerif.Model.TextOps in
 -- 多 (E5 A4 9A) and ⩞ (U+2A5E = E2 A9 9E) contain neither 2A nor 5E
 example : stateAfter [.toNumber] (encode [0x31, 0x2A, 0x31, 0x30, 0x5E, 0x33, 0x591A]) = encode [0x31, 0x65, 0x33, 0x591A] ∧
     atoiRewrite (encode [0x2A, 0x591A, 0x5E, 0x2A5E]) = encode [0x2A, 0x591A, 0x5E, 0x2A5E] := ⟨by rfl, by rfl⟩
+
+/-! ## The other text methods: 替换 匹配 匹配开头 匹配结尾 去除空格 转小写-英文 转大写-英文 格式化 转换数值
+
+`Model/TextMethods.lean` mirrors what pkg/value/string.go asks of Go's `strings` / `strconv` packages, on bytes;
+`Spec/TextMethods.lean` says what the methods mean, on characters.  (取样, 分隔, 长度, 字符组 are above; 拼接 appends.) -/
+
+open ZnVerif.Model.TextOps ZnVerif.Proofs.TextMethods in
+/-- `text_methods_refine_spec`: on the UTF-8 bytes of texts of Unicode scalar values the models compute the encoding of
+what the specs say of the characters —
+  * 替换: every leftmost non-overlapping occurrence is replaced, none is found inside a multi-byte character; an empty
+    pattern is found before every character and at the end (not between the bytes of one);
+  * 匹配 / 匹配开头 / 匹配结尾: the bytes of `sub` occur in / start / end the bytes of `t` iff its characters do;
+  * 去除空格: exactly the White_Space characters at both ends go;
+  * 转小写-英文 / 转大写-英文: defined for the same texts (no letter that is cased but not English), same result;
+  * 格式化: `{#k}` becomes the k-th value, left to right, replaced text is not scanned again;
+  * 转换数值: the receiver is left holding the encoding of `numberRewrite t`; the scanner of `strconv.ParseFloat` on its bytes
+    accepts, refuses or (special spellings, possible overflow) is left out exactly where the spec's numeral form says
+    decimal numeral / exception / open; and an accepted text is ASCII, so the number is `ParseFloat` of the same text -/
+theorem text_methods_refine_spec (t : List Nat) (hv : ValidText t) :
+    (∀ pat rep, ValidText pat →
+      replaceAll (encode t) (encode pat) (encode rep) = encode (Spec.TextOps.replaceAll t pat rep)) ∧
+    (∀ sub, ValidText sub →
+      containsGo (encode sub) (encode t) = Spec.TextOps.occursIn sub t ∧
+      hasPrefix (encode t) (encode sub) = Spec.TextOps.startsWith t sub ∧
+      hasSuffix (encode t) (encode sub) = Spec.TextOps.endsWith t sub) ∧
+    trimSpace (encode t) = encode (Spec.TextOps.trim t) ∧
+    toLower (encode t) = (Spec.TextOps.toLower t).map encode ∧
+    toUpper (encode t) = (Spec.TextOps.toUpper t).map encode ∧
+    (∀ vals, format (encode t) (vals.map encode) = encode (Spec.TextOps.fill t vals)) ∧
+    (atoiRewrite (encode t) = encode (Spec.TextOps.numberRewrite t) ∧
+     atofClass (atoiRewrite (encode t)) = classOf (Spec.TextOps.numeralKind (Spec.TextOps.numberRewrite t)) ∧
+     (Spec.TextOps.numeralKind (Spec.TextOps.numberRewrite t) = .decimal →
+       atoiRewrite (encode t) = Spec.TextOps.numberRewrite t)) := by
+  have hrw := Proofs.TextHistory.atoiRewrite_encode t hv
+  have hvr := Proofs.TextHistory.validText_numberRewrite t hv
+  have hcls : atofClass (atoiRewrite (encode t)) = classOf (Spec.TextOps.numeralKind (Spec.TextOps.numberRewrite t)) := by
+    rw [hrw, atofClass_encode _ hvr, atofClass_numeralKind]
+  refine ⟨fun pat rep hp => replaceAll_encode t pat rep hv hp,
+    fun sub hs => ⟨containsGo_encode sub hs t hv, hasPrefix_encode t sub hv hs, hasSuffix_encode t sub hv hs⟩,
+    trimSpace_encode t hv, toLower_encode t hv, toUpper_encode t hv, fun vals => format_encode t vals hv,
+    hrw, hcls, fun hd => ?_⟩
+  have hnum : atofClass (Spec.TextOps.numberRewrite t) = .number := by
+    rw [atofClass_numeralKind, hd]; rfl
+  rw [hrw, encode_ascii _ (ascii_of_number _ hnum)]
+
+/-! non-vacuity -/
+
+open ZnVerif.Model.TextOps in
+-- 好 inside 你好你好 is replaced twice; the empty pattern is found around every character, not inside one
+example : replaceAll (encode [0x4F60, 0x597D, 0x4F60, 0x597D]) (encode [0x597D]) (encode [0x61]) = encode [0x4F60, 0x61, 0x4F60, 0x61] ∧
+    Spec.TextOps.replaceAll [0x4F60, 0x597D, 0x4F60, 0x597D] [0x597D] [0x61] = [0x4F60, 0x61, 0x4F60, 0x61] ∧
+    replaceAll (encode [0x4F60, 0x597D]) [] [0x2D] = encode [0x2D, 0x4F60, 0x2D, 0x597D, 0x2D] := ⟨by rfl, by rfl, by rfl⟩
+
+open ZnVerif.Model.TextOps in
+-- 你 = E4 BD A0, 䶠 = E4 B6 A0: the byte A0 (the last of 你, and NBSP's second byte) is not a suffix character;
+-- an ideographic space and a no-break space at the ends go, the zero-width space U+200B stays
+example : hasSuffix (encode [0x4F60]) (encode [0xA0]) = false ∧
+    trimSpace (encode [0x3000, 0x200B, 0x61, 0xA0]) = encode [0x200B, 0x61] ∧
+    Spec.TextOps.trim [0x3000, 0x200B, 0x61, 0xA0] = [0x200B, 0x61] := ⟨by rfl, by rfl, by rfl⟩
+
+open ZnVerif.Model.TextOps in
+-- `{#2}` and `{#1}`; the value of `{#1}` holds a placeholder that is not filled again; `{#3}` has no value
+example : format (encode [0x7B, 0x23, 0x32, 0x7D, 0x7B, 0x23, 0x31, 0x7D, 0x7B, 0x23, 0x33, 0x7D]) [encode [0x7B, 0x23, 0x32, 0x7D], encode [0x4F60]] =
+    encode [0x4F60, 0x7B, 0x23, 0x32, 0x7D, 0x7B, 0x23, 0x33, 0x7D] := by rfl
+
+open ZnVerif.Model.TextOps in
+-- Ab你 ↦ ab你; É (U+00C9) is outside the fragment; `1*^3` is left as `1e3`, a decimal numeral; `1e`, `１` are none;
+-- `inf`, `0x1p1`, `1_0`, `1e999` are left open
+example : toLower (encode [0x41, 0x62, 0x4F60]) = some (encode [0x61, 0x62, 0x4F60]) ∧ toLower (encode [0xC9]) = none ∧
+    Spec.TextOps.toLower [0xC9] = none ∧
+    atoiRewrite (encode [0x31, 0x2A, 0x5E, 0x33]) = [0x31, 0x65, 0x33] ∧ atofClass [0x31, 0x65, 0x33] = .number ∧
+    atofClass [0x31, 0x65] = .syntaxErr ∧ atofClass (encode [0xFF11]) = .syntaxErr ∧
+    atofClass [0x69, 0x6E, 0x66] = .special ∧ atofClass [0x30, 0x78, 0x31, 0x70, 0x31] = .special ∧
+    atofClass [0x31, 0x5F, 0x30] = .special ∧ atofClass [0x31, 0x65, 0x39, 0x39, 0x39] = .special := by decide
+
 
 end ZnVerif.Properties.C14
